@@ -309,7 +309,9 @@ def recheck_one(k, res, ncpu):
     if mut is None:
         out["recheck"] = "mutant-not-found"
         return out
-    others = sorted(set(COST) - set(anch.get(res["file"], [])), key=lambda p: COST[p])
+    # the anchored checks again (they may have been strengthened since the run), then all the others
+    mine = sorted(anch.get(res["file"], []), key=lambda p: COST[p])
+    others = mine + sorted(set(COST) - set(mine), key=lambda p: COST[p])
     r = run_one(10000 + k, mut, {res["file"]: others}, ncpu, False)
     out["recheck"] = r["outcome"]
     out["recheck_killed_by"] = r.get("killed_by")
